@@ -29,6 +29,7 @@ PROBES = ["immediate_clear", "timed_clear", "clear_by_event", "clear_by_nested_c
           "relay_chain3", "relay_empty_kwargs", "bool_false_midway", "bool_no_false",
           "game_queue_event_held", "game_ball_ending_held", "game_mode_starting_held", "game_mode_stopping_held",
           "game_holds_released_together", "game_ball_ended", "game_ended", "game_mode_stopped_by_ball_end",
+          "queue_handler_returns_false", "queue_handler_returns_value", "relay_handler_returns_false",
           "relative_priority_handler", "coro_ends_cancelled", "coro_task_cancelled",
           "coro_awaited_future_cancelled", "rewait_same_queue", "forwarded_queue_nested", "shared_queue_second_wait", "relay_reg_collides_posted",
           "relay_ret_collides_reg", "handler_removed_in_flight", "all_handlers_removed_after_post", "late_after_stall"]
@@ -170,6 +171,11 @@ def _gen_queue_handler(ch, hid, ev, feat, only_clear=False):
             h["cancel"] = [ch.pick("cancel_how", ["fut", "task"]), ch.pick("d", DELAYS)]
     unlocked_after = h["kind"] == "sync" or (h["kind"] == "wait" and h["clear"] == ["now"])
     h["acts"] = _gen_acts(ch, ev, feat, only_clear, fwd=unlocked_after)
+    # What a handler of a *queue* event returns has no effect on which handlers run (only boolean events stop at
+    # False, only relay events take a dict): sync handlers, waiters and coroutines return all sorts of values.
+    r = ch.weighted("qret", [("none", 4), ("false", 3), ("true", 1), ("zero", 1), ("empty", 1), ("dict", 1)])
+    if r != "none":
+        h["ret"] = {"false": False, "true": True, "zero": 0, "empty": {}, "dict": {"a": 99, "z": 1}}[r]
     return h
 
 
@@ -263,13 +269,15 @@ def plan(ch, tier):
     if feat["relay"]:
         for ev in REV:
             for _ in range(1 + ch.choice("nh_r", 5)):
-                r = ch.weighted("rret", [("delta", 5), ("none", 2), ("true", 1), ("zero", 1)])
+                r = ch.weighted("rret", [("delta", 5), ("none", 2), ("true", 1), ("zero", 1), ("false", 1.5),
+                                         ("empty", 1)])
                 h = _prio(ch, {"hid": nh(), "ev": ev, "kind": "relay", "acts": _gen_acts(ch, ev, feat)}, feat)
                 if r == "delta":
                     h["ret"] = {ch.pick("rk", ["a", "b", "x"]): ch.choice("rv", 5) + 10
                                 for _ in range(1 + ch.choice("rn", 2))}
                 else:
-                    h["ret"] = {"none": None, "true": True, "zero": 0}[r]
+                    # False / {} on a relay event: no update and no stop (only boolean events stop at False)
+                    h["ret"] = {"none": None, "true": True, "zero": 0, "false": False, "empty": {}}[r]
                 if ch.flag("rreg", 0.45):
                     # registered kwargs; names collide with posted arguments ('a', 'p') in a good share of cases
                     h["reg"] = {ch.pick("rregk", ["a", "p", "reg", "a", "b"]): ch.choice("rregv", 3) + 20}
@@ -359,6 +367,8 @@ def shrink(plan):
             simpler.append(dict(h, acts=[]))
         if h.get("rel"):
             simpler.append({k: v for k, v in h.items() if k != "rel"})
+        if h["kind"] in ("sync", "wait", "coro") and "ret" in h:
+            simpler.append({k: v for k, v in h.items() if k != "ret"})
         if h.get("cancel"):
             simpler.append({k: v for k, v in h.items() if k != "cancel"})
         if h["kind"] == "coro":
